@@ -371,6 +371,66 @@ func c05Consumers() []consumer {
 			sort.Ints(ns)
 			return itoa(ns[len(ns)-1]), ""
 		})},
+		// the same folds with their optional arguments: a default only stands in for an EMPTY
+		// iterable, never for one that failed; key functions see every item once
+		{name: "min-default", code: "r = min(IT, default=-99)\n", model: whole(func(xs []string) (string, string) {
+			if len(xs) == 0 {
+				return "-99", ""
+			}
+			ns := cInts(xs)
+			sort.Ints(ns)
+			return itoa(ns[0]), ""
+		})},
+		{name: "max-default", code: "r = max(IT, default=99)\n", model: whole(func(xs []string) (string, string) {
+			if len(xs) == 0 {
+				return "99", ""
+			}
+			ns := cInts(xs)
+			sort.Ints(ns)
+			return itoa(ns[len(ns)-1]), ""
+		})},
+		{name: "max-key-default", code: "r = max(IT, key=neg, default=-99)\n", model: whole(func(xs []string) (string, string) {
+			if len(xs) == 0 {
+				return "-99", ""
+			}
+			ns := cInts(xs)
+			sort.Ints(ns)
+			return itoa(ns[0]), ""
+		})},
+		{name: "min-key", code: "r = min(IT, key=neg)\n", model: whole(func(xs []string) (string, string) {
+			if len(xs) == 0 {
+				return "", "ValueError"
+			}
+			ns := cInts(xs)
+			sort.Ints(ns)
+			return itoa(ns[len(ns)-1]), ""
+		})},
+		{name: "sum-start", code: "r = sum(IT, 100)\n", model: whole(func(xs []string) (string, string) {
+			t := 100
+			for _, n := range cInts(xs) {
+				t += n
+			}
+			return itoa(t), ""
+		})},
+		{name: "sorted-key-reverse", code: "r = sorted(IT, key=neg, reverse=True)\n", model: whole(func(xs []string) (string, string) {
+			ns := cInts(xs)
+			sort.Ints(ns)
+			var out []string
+			for _, n := range ns {
+				out = append(out, itoa(n))
+			}
+			return cList(out), ""
+		})},
+		{name: "next-default", code: "r = next(iter(IT), 99)\n", model: func(a *absIt) (string, string) {
+			v, exc, ok := a.next()
+			if exc != "" {
+				return "", exc
+			}
+			if !ok {
+				return "99", ""
+			}
+			return v, ""
+		}},
 		{name: "sorted", code: "r = sorted(IT)\n", model: whole(func(xs []string) (string, string) {
 			ns := cInts(xs)
 			sort.Ints(ns)
@@ -575,6 +635,8 @@ def add(a, b):
     return a + b
 def pos(v):
     return v > 0
+def neg(v):
+    return -v
 `
 
 func c05Producers() []prodCfg {
